@@ -41,14 +41,27 @@ pub fn run(cx: &mut Ctx) {
     }
     cx.exhaustive_blocks.push(format!("all pairs of keyed inputs of length <= {maxlen} over 2 keys x 4 join kinds x seq + par 1..3 ({n_ex} programs)"));
 
+    // corpus: a side whose source is EMPTY but whose chain contains a global combine (one row even on empty
+    // input), keyed afterwards — on either side, every kind
+    for k in KINDS {
+        let g = Prog { shape: Shape::T, src: vec![], steps: vec![Step::CombineGlobally(Comb::Sum, None), Step::Topair] };
+        let other = Prog { shape: Shape::KV, src: vec![V::pair(V::I(0), V::I(7)), V::pair(V::I(1), V::I(8))], steps: vec![] };
+        let mut a = g.clone();
+        a.steps.push(Step::Join(k, Box::new(other.clone())));
+        check_prog(cx, &a, &[Mode::Seq, Mode::Par(1), Mode::Par(3)], &o);
+        let mut b = other.clone();
+        b.steps.push(Step::Join(k, Box::new(g.clone())));
+        check_prog(cx, &b, &[Mode::Seq, Mode::Par(1), Mode::Par(3)], &o);
+    }
+
     // random: transformed sides (incl. gbk / combine prefixes), downstream steps, occasional nested joins
     let rounds = cx.budget(300, 6000);
     let mut done = 0;
     while done < rounds {
         let nested = done % 12 == 0;
-        let lopts = GenOpts { max_steps: 4, max_rows: cx.budget(16, 60), barriers: done % 2 == 0, joins: nested, globals: false, nonlocal_batches: false };
+        let lopts = GenOpts { max_steps: 4, max_rows: cx.budget(16, 60), barriers: done % 2 == 0, joins: nested, globals: done % 4 == 1, nonlocal_batches: false };
         let mut p = gen_prog_to(&mut cx.rng, &lopts, Shape::KV, if nested { 0 } else { 2 });
-        let ropts = GenOpts { max_steps: 4, max_rows: cx.budget(16, 60), barriers: done % 3 == 0, joins: nested && cx.rng.chance(1, 2), globals: false, nonlocal_batches: false };
+        let ropts = GenOpts { max_steps: 4, max_rows: cx.budget(16, 60), barriers: done % 3 == 0, joins: nested && cx.rng.chance(1, 2), globals: done % 4 == 3, nonlocal_batches: false };
         let right = gen_prog_to(&mut cx.rng, &ropts, Shape::KV, if nested { 0 } else { 2 });
         let kind = *cx.rng.pick(&KINDS);
         p.steps.push(Step::Join(kind, Box::new(right)));
